@@ -1211,4 +1211,413 @@ example (t t' : Str) (n : Nat) : (Opd.ofItem (.num t n)).val = (Opd.ofItem (.num
 example (e : Expr) (s s' : Str) : (Opd.ofExpr e s).val = (Opd.ofExpr e s').val := rfl
 example (r : Reg16) : (Opd.postInc false r).val = (Opd.postInc true r).val := rfl
 
+/-! ### from the operands to the line, for `.name` and `#name` alike -/
+
+theorem directive_line_of_ops (lab : Option Str) (labText ws1 : Str) (p : Char) (name wsA R : Str) (ops : DirectiveOps) (ws2 c : Str)
+    (hp : p = '.' ∨ p = '#')
+    (hlabel : (lab = none ∧ labText = []) ∨ ∃ l, isName l ∧ lab = some (lower l) ∧ labText = l ++ [':'])
+    (hws1 : blanks ws1) (hname : name ≠ []) (hlow : ∀ ch ∈ name, isLowerAlpha ch = true)
+    (hwsA : blanks wsA) (hA : wsA ≠ []) (hdo : directiveOps R = .ok ops (ws2 ++ c)) (hsr : skipSpace R = R)
+    (hws2 : blanks ws2) (hc : lineEnd c) :
+    line (labText ++ (ws1 ++ (p :: (name ++ (wsA ++ R))))) =
+      .ok (.directiveLine lab (directiveOfName name) ops) := by
+  obtain ⟨w, ws, rfl⟩ : ∃ w ws, wsA = w :: ws := by
+    cases wsA with
+    | nil => exact absurd rfl hA
+    | cons w ws => exact ⟨w, ws, rfl⟩
+  have hw : isSpace w = true := hwsA w (by simp)
+  have hwl : isLowerAlpha w = false := by
+    simp only [isSpace, Bool.or_eq_true, beq_iff_eq] at hw
+    rcases hw with rfl | rfl <;> decide
+  have hpi : isIdentStart p = false ∧ isSpace p = false ∧ (p == '.' || p == '#') = true := by
+    rcases hp with rfl | rfl <;> decide
+  have hopt : optLabel (labText ++ (ws1 ++ (p :: (name ++ ((w :: ws) ++ R))))) = (lab, ws1 ++ (p :: (name ++ ((w :: ws) ++ R)))) := by
+    rcases hlabel with ⟨rfl, rfl⟩ | ⟨l, hl, rfl, rfl⟩
+    · have hlab : label (ws1 ++ (p :: (name ++ ((w :: ws) ++ R)))) = none := by
+        cases ws1 with
+        | nil => simp [label, identText, hpi.1]
+        | cons v vs =>
+          have hv : isSpace v = true := hws1 v (by simp)
+          have : isIdentStart v = false := by
+            simp only [isSpace, Bool.or_eq_true, beq_iff_eq] at hv
+            rcases hv with rfl | rfl <;> decide
+          simp [label, identText, this]
+      simp only [List.nil_append, optLabel, hlab]
+    · have hidl : identText (l ++ ':' :: (ws1 ++ (p :: (name ++ ((w :: ws) ++ R))))) = some (l, ':' :: (ws1 ++ (p :: (name ++ ((w :: ws) ++ R))))) :=
+        identText_name l _ hl (by intro y hy; simp at hy; subst hy; decide)
+      have : l ++ [':'] ++ (ws1 ++ (p :: (name ++ ((w :: ws) ++ R)))) = l ++ ':' :: (ws1 ++ (p :: (name ++ ((w :: ws) ++ R)))) := by simp
+      rw [this]
+      simp only [optLabel, label, hidl]
+  have hsk : skipSpace (ws1 ++ (p :: (name ++ ((w :: ws) ++ R)))) = p :: (name ++ ((w :: ws) ++ R)) := by
+    rw [space_absorbs ws1 _ hws1]; simp [skipSpace, hpi.2.1]
+  have htw : takeWhileP isLowerAlpha (name ++ ((w :: ws) ++ R)) = (name, (w :: ws) ++ R) :=
+    takeWhile_all isLowerAlpha name _ hlow (by intro y hy; simp at hy; subst hy; exact hwl)
+  have hdir : directive (p :: (name ++ ((w :: ws) ++ R))) = some (directiveOfName name, (w :: ws) ++ R) := by
+    have hne : name.isEmpty = false := by cases name with | nil => exact absurd rfl hname | cons _ _ => rfl
+    simp only [directive, htw, hne, hpi.2.2]
+    simp
+  have hsA : skipSpace ((w :: ws) ++ R) = R := by
+    rw [space_absorbs (w :: ws) _ hwsA]; exact hsr
+  have hst := skip_tail ws2 c hws2 hc
+  unfold line
+  rw [hopt]
+  dsimp only
+  simp only [hsk]
+  simp only [hdir]
+  simp only [hsA]
+  simp only [hdo]
+  simp only [hst]
+  rcases hc with rfl | ⟨_, hcom⟩
+  · simp [comment]
+  · simp only [hcom]; simp
+
+
+
+/-! ### `#pragma` lists: two to six operands separated by blanks only -/
+
+/-- an operand of such a list: a name or a number -/
+inductive PItem
+  | name (s : Str)
+  | num (t : Str) (n : Nat)
+
+def PItem.good : PItem → Prop
+  | .name s => isName s
+  | .num t n => NumText t n
+
+def PItem.text : PItem → Str
+  | .name s => s
+  | .num t _ => t
+
+def PItem.val : PItem → Operand
+  | .name s => .e (.ident s)
+  | .num _ n => .e (.const (n : Int))
+
+/-- the rest of the list: non-empty blanks, an operand, and so on -/
+def pragTail : List (Str × PItem) → Str
+  | [] => []
+  | (w, it) :: more => w ++ (it.text ++ pragTail more)
+
+def pragOk (more : List (Str × PItem)) : Prop := ∀ x ∈ more, blanks x.1 ∧ x.1 ≠ [] ∧ x.2.good
+
+theorem pitem_head (it : PItem) (hg : it.good) (rest : Str) :
+    ∃ y ys, it.text ++ rest = y :: ys ∧ (isIdentStart y = true ∨ isDigit y = true ∨ y = '$') := by
+  cases it with
+  | name s =>
+    obtain ⟨x, xs, rfl, hx, _⟩ := hg
+    exact ⟨x, xs ++ rest, rfl, Or.inl hx⟩
+  | num t n =>
+    obtain ⟨y, ys, hs, hy⟩ := numText_head t n hg rest
+    refine ⟨y, ys, hs, ?_⟩
+    rcases hy with h | h
+    · exact Or.inr (Or.inl h)
+    · exact Or.inr (Or.inr h)
+
+theorem wordStart_facts (y : Char) (h : isIdentStart y = true ∨ isDigit y = true ∨ y = '$') :
+    isSpace y = false ∧ y ≠ '(' ∧ y ≠ '=' ∧ ¬ noStart y ∧ y ≠ '"' := by
+  rcases h with h | h | rfl
+  · have f := identStart_facts y h
+    refine ⟨f.2.1, f.2.2.2.1, ?_, ?_, ?_⟩
+    · intro hc; subst hc; revert h; decide
+    · intro hn; rcases hn with rfl | rfl | rfl | rfl | rfl | rfl | rfl | rfl | rfl | rfl <;> (revert h; decide)
+    · intro hc; subst hc; revert h; decide
+  · refine ⟨?_, ?_, ?_, ?_, ?_⟩
+    · cases hsp : isSpace y with
+      | false => rfl
+      | true =>
+        simp only [isSpace, Bool.or_eq_true, beq_iff_eq] at hsp
+        rcases hsp with rfl | rfl <;> (revert h; decide)
+    · intro hc; subst hc; revert h; decide
+    · intro hc; subst hc; revert h; decide
+    · intro hn; rcases hn with rfl | rfl | rfl | rfl | rfl | rfl | rfl | rfl | rfl | rfl <;> (revert h; decide)
+    · intro hc; subst hc; revert h; decide
+  · exact ⟨by decide, by decide, by decide, by intro hn; rcases hn with h | h | h | h | h | h | h | h | h | h <;> exact absurd h (by decide), by decide⟩
+
+/-- no binary operator starts with a letter, a digit or `$` -/
+theorem infix_not_word : ∀ x ∈ infixOps, x.1 ≠ [] ∧ ∀ c, x.1.head? = some c →
+    c = '|' ∨ c = '&' ∨ c = '^' ∨ c = '=' ∨ c = '!' ∨ c = '<' ∨ c = '>' ∨ c = '+' ∨ c = '-' ∨ c = '*' ∨ c = '/' ∨ c = '%' := by decide
+
+theorem lit_word_none (x : Ent) (hx : x ∈ infixOps) (y : Char) (ys : Str)
+    (hy : isIdentStart y = true ∨ isDigit y = true ∨ y = '$') : lit x.1 (y :: ys) = none := by
+  obtain ⟨hne, hh⟩ := infix_not_word x hx
+  apply lit_head_ne _ _ _ hne
+  intro hc
+  have := hh y hc
+  rcases hy with h | h | rfl
+  · rcases this with rfl | rfl | rfl | rfl | rfl | rfl | rfl | rfl | rfl | rfl | rfl | rfl <;> (revert h; decide)
+  · rcases this with rfl | rfl | rfl | rfl | rfl | rfl | rfl | rfl | rfl | rfl | rfl | rfl <;> (revert h; decide)
+  · rcases this with h | h | h | h | h | h | h | h | h | h | h | h <;> exact absurd h (by decide)
+
+/-- what follows an operand of such a list: blanks and the next operand, or the end of the line -/
+theorem prag_after (more : List (Str × PItem)) (hm : pragOk more) (ws2 c : Str) (hws2 : blanks ws2) (hc : lineEnd c) :
+    AtomEndB (pragTail more ++ (ws2 ++ c)) ∧ EndAt 0 (pragTail more ++ (ws2 ++ c)) := by
+  cases more with
+  | nil =>
+    have h := dpd_after [] (by intro x hx; simp at hx) ws2 c hws2 hc
+    simp only [dpdTail, List.nil_append] at h
+    simp only [pragTail, List.nil_append]
+    refine ⟨⟨h.1.2.1, h.2.1⟩, ?_⟩
+    intro x hx
+    rcases h.1.2.2 x hx with h1 | h1
+    · exact Or.inr (Or.inl h1)
+    · exact Or.inr (Or.inr h1)
+  | cons x xs =>
+    obtain ⟨w, it⟩ := x
+    obtain ⟨hw, hwne, hg⟩ := hm _ (List.mem_cons_self ..)
+    simp only at hw hwne hg
+    obtain ⟨w0, ws, rfl⟩ : ∃ w0 ws, w = w0 :: ws := by
+      cases w with
+      | nil => exact absurd rfl hwne
+      | cons a b => exact ⟨a, b, rfl⟩
+    have hw0 : isSpace w0 = true := hw w0 (by simp)
+    have hw0i : isIdentChar w0 = false := by
+      simp only [isSpace, Bool.or_eq_true, beq_iff_eq] at hw0
+      rcases hw0 with rfl | rfl <;> decide
+    obtain ⟨y, ys, hy, hyc⟩ := pitem_head it hg (pragTail xs ++ (ws2 ++ c))
+    have hf := wordStart_facts y hyc
+    have hform : pragTail ((w0 :: ws, it) :: xs) ++ (ws2 ++ c) = (w0 :: ws) ++ (it.text ++ (pragTail xs ++ (ws2 ++ c))) := by
+      simp [pragTail]
+    have hsk : skipSpace ((w0 :: ws) ++ (it.text ++ (pragTail xs ++ (ws2 ++ c)))) = y :: ys := by
+      rw [space_absorbs _ _ hw, hy]; simp [skipSpace, hf.1]
+    rw [hform]
+    refine ⟨⟨?_, ?_⟩, ?_⟩
+    · intro z hz; simp at hz; subst hz; exact hw0i
+    · intro r2 hr
+      rw [hsk] at hr
+      simp only [List.cons.injEq] at hr
+      exact hf.2.1 hr.1
+    · intro x hx
+      right; left
+      rw [hsk]
+      exact lit_word_none x hx y ys hyc
+
+theorem directiveOp_pitem (it : PItem) (hg : it.good) (rest : Str) (hr : AtomEndB rest) (he : EndAt 0 rest) :
+    directiveOp (it.text ++ rest) = .ok it.val rest := by
+  cases it with
+  | name s =>
+    have := parse_print_spaced top (.ident s) s (Spaced.ident 0 s hg) rest hr he
+    simp only [PItem.text, PItem.val]
+    unfold directiveOp
+    simp only [this]
+  | num t n =>
+    have := parse_print_spaced top (.const (n : Int)) t (Spaced.num 0 _ n t rfl hg) rest hr he
+    simp only [PItem.text, PItem.val]
+    unfold directiveOp
+    simp only [this]
+
+theorem skip_pitem (it : PItem) (hg : it.good) (rest : Str) : skipSpace (it.text ++ rest) = it.text ++ rest := by
+  obtain ⟨y, ys, hy, hyc⟩ := pitem_head it hg rest
+  rw [hy]; simp [skipSpace, (wordStart_facts y hyc).1]
+
+theorem spacedOps_step (n : Nat) (s : Str) : spacedOps (n + 2) s =
+    (match directiveOp s with
+      | .ok v r =>
+        match neSpace r with
+        | some r1 =>
+          match spacedOps (n + 1) r1 with
+          | .ok vs r2 => .ok (v :: vs) r2
+          | .oof => .oof
+          | .fail => .fail
+        | none => .fail
+      | .oof => .oof
+      | .fail => .fail) := by
+  rw [spacedOps]
+  cases directiveOp s with
+  | ok v r =>
+    cases neSpace r with
+    | some r1 => cases spacedOps (n + 1) r1 <;> rfl
+    | none => rfl
+  | oof => rfl
+  | fail => rfl
+
+/-- exactly as many blank-separated operands as there are: read -/
+theorem spacedOps_exact : ∀ (more : List (Str × PItem)) (first : PItem), first.good → pragOk more →
+    ∀ (ws2 c : Str), blanks ws2 → lineEnd c →
+      spacedOps (more.length + 1) (first.text ++ (pragTail more ++ (ws2 ++ c))) =
+        .ok (first.val :: more.map (fun x => x.2.val)) (ws2 ++ c) := by
+  intro more
+  induction more with
+  | nil =>
+    intro first hg _ ws2 c hws2 hc
+    obtain ⟨h1, h2⟩ := prag_after [] (by intro x hx; simp at hx) ws2 c hws2 hc
+    have := directiveOp_pitem first hg _ h1 h2
+    simp only [pragTail, List.nil_append] at this ⊢
+    simp only [List.length_nil, spacedOps, this, List.map_nil]
+  | cons x xs ih =>
+    intro first hg hm ws2 c hws2 hc
+    obtain ⟨w, it⟩ := x
+    obtain ⟨hw, hwne, hgi⟩ := hm _ (List.mem_cons_self ..)
+    simp only at hw hwne hgi
+    have hxs : pragOk xs := fun y hy => hm y (List.mem_cons_of_mem _ hy)
+    obtain ⟨h1, h2⟩ := prag_after ((w, it) :: xs) hm ws2 c hws2 hc
+    have hop := directiveOp_pitem first hg _ h1 h2
+    obtain ⟨w0, ws, rfl⟩ : ∃ w0 ws, w = w0 :: ws := by
+      cases w with
+      | nil => exact absurd rfl hwne
+      | cons a b => exact ⟨a, b, rfl⟩
+    have hw0 : isSpace w0 = true := hw w0 (by simp)
+    have hne : neSpace (pragTail ((w0 :: ws, it) :: xs) ++ (ws2 ++ c)) = some (it.text ++ (pragTail xs ++ (ws2 ++ c))) := by
+      simp only [pragTail, List.cons_append, List.append_assoc, neSpace, hw0, if_true]
+      rw [space_absorbs ws _ (fun c hc => hw c (List.mem_cons_of_mem _ hc)), skip_pitem it hgi]
+    have := ih it hgi hxs ws2 c hws2 hc
+    simp only [List.length_cons, List.map_cons]
+    rw [spacedOps_step, hop]
+    simp only [hne]
+    rw [this]
+
+/-- more than there are: not read -/
+theorem spacedOps_more : ∀ (more : List (Str × PItem)) (first : PItem), first.good → pragOk more →
+    ∀ (ws2 c : Str), blanks ws2 → lineEnd c → ∀ k, more.length + 1 < k + 2 →
+      spacedOps (k + 2) (first.text ++ (pragTail more ++ (ws2 ++ c))) = .fail := by
+  intro more
+  induction more with
+  | nil =>
+    intro first hg _ ws2 c hws2 hc k _
+    obtain ⟨h1, h2⟩ := prag_after [] (by intro x hx; simp at hx) ws2 c hws2 hc
+    have hop := directiveOp_pitem first hg _ h1 h2
+    simp only [pragTail, List.nil_append] at hop ⊢
+    have hZ := dpd_after_skip [] (by intro x hx; simp at hx) ws2 c hws2 hc
+    simp only [dpdTail, List.nil_append] at hZ
+    simp only [spacedOps, hop]
+    cases hrest : ws2 ++ c with
+    | nil => simp [neSpace]
+    | cons y ys =>
+      rw [hrest] at hZ
+      cases hsp : isSpace y with
+      | true =>
+        have hsk : skipSpace (y :: ys) = skipSpace ys := by simp [skipSpace, hsp]
+        rw [hsk] at hZ
+        simp only [neSpace, hsp, if_true]
+        rw [spacedOps_fail_at (skipSpace ys) hZ k]
+      | false => simp [neSpace, hsp]
+  | cons x xs ih =>
+    intro first hg hm ws2 c hws2 hc k hk
+    obtain ⟨w, it⟩ := x
+    obtain ⟨hw, hwne, hgi⟩ := hm _ (List.mem_cons_self ..)
+    simp only at hw hwne hgi
+    have hxs : pragOk xs := fun y hy => hm y (List.mem_cons_of_mem _ hy)
+    obtain ⟨h1, h2⟩ := prag_after ((w, it) :: xs) hm ws2 c hws2 hc
+    have hop := directiveOp_pitem first hg _ h1 h2
+    obtain ⟨w0, ws, rfl⟩ : ∃ w0 ws, w = w0 :: ws := by
+      cases w with
+      | nil => exact absurd rfl hwne
+      | cons a b => exact ⟨a, b, rfl⟩
+    have hw0 : isSpace w0 = true := hw w0 (by simp)
+    have hne : neSpace (pragTail ((w0 :: ws, it) :: xs) ++ (ws2 ++ c)) = some (it.text ++ (pragTail xs ++ (ws2 ++ c))) := by
+      simp only [pragTail, List.cons_append, List.append_assoc, neSpace, hw0, if_true]
+      rw [space_absorbs ws _ (fun c hc => hw c (List.mem_cons_of_mem _ hc)), skip_pitem it hgi]
+    simp only [List.length_cons] at hk
+    obtain ⟨k', rfl⟩ : ∃ k', k = k' + 1 := ⟨k - 1, by omega⟩
+    have := ih it hgi hxs ws2 c hws2 hc k' (by omega)
+    rw [spacedOps_step, hop]
+    simp only [hne]
+    rw [this]
+
+theorem prag_lead (first : PItem) (hg : first.good) (x : Str × PItem) (xs : List (Str × PItem)) (hm : pragOk (x :: xs))
+    (ws2 c : Str) : LeadOk (first.text ++ (pragTail (x :: xs) ++ (ws2 ++ c))) := by
+  obtain ⟨w, it⟩ := x
+  obtain ⟨hw, hwne, hgi⟩ := hm _ (List.mem_cons_self ..)
+  simp only at hw hwne hgi
+  cases first with
+  | num t n =>
+    obtain ⟨y, ys, hs, hy⟩ := numText_head t n hg (pragTail ((w, it) :: xs) ++ (ws2 ++ c))
+    left
+    refine ⟨y, ys, hs, ?_⟩
+    rcases hy with h | rfl
+    · cases hi : isIdentStart y with
+      | false => rfl
+      | true => have := (identStart_facts y hi).1; rw [h] at this; exact absurd this (by decide)
+    · decide
+  | name s =>
+    right
+    obtain ⟨w0, ws, rfl⟩ : ∃ w0 ws, w = w0 :: ws := by
+      cases w with
+      | nil => exact absurd rfl hwne
+      | cons a b => exact ⟨a, b, rfl⟩
+    have hw0 : isSpace w0 = true := hw w0 (by simp)
+    obtain ⟨y, ys, hy, hyc⟩ := pitem_head it hgi (pragTail xs ++ (ws2 ++ c))
+    have hf := wordStart_facts y hyc
+    refine ⟨s, pragTail ((w0 :: ws, it) :: xs) ++ (ws2 ++ c), rfl, hg, ?_, ?_⟩
+    · intro z hz
+      simp [pragTail] at hz
+      subst hz
+      simp only [isSpace, Bool.or_eq_true, beq_iff_eq] at hw0
+      rcases hw0 with rfl | rfl <;> decide
+    · have hsk : skipSpace (pragTail ((w0 :: ws, it) :: xs) ++ (ws2 ++ c)) = y :: ys := by
+        have hform : pragTail ((w0 :: ws, it) :: xs) ++ (ws2 ++ c) = (w0 :: ws) ++ (it.text ++ (pragTail xs ++ (ws2 ++ c))) := by
+          simp [pragTail]
+        rw [hform, space_absorbs _ _ hw, hy]; simp [skipSpace, hf.1]
+      rw [hsk]
+      exact Or.inr (Or.inl ⟨y, ys, rfl, hf.2.2.1⟩)
+
+/-- the operand list of a `#pragma`-style line: two to six operands separated by blanks -/
+theorem directiveOps_pragma (first : PItem) (hg : first.good) (more : List (Str × PItem)) (hm : pragOk more)
+    (hlen : 1 ≤ more.length ∧ more.length ≤ 5) (ws2 c : Str) (hws2 : blanks ws2) (hc : lineEnd c) :
+    directiveOps (first.text ++ (pragTail more ++ (ws2 ++ c))) =
+      .ok (.opList (first.val :: more.map (fun x => x.2.val))) (ws2 ++ c) := by
+  have hlead : LeadOk (first.text ++ (pragTail more ++ (ws2 ++ c))) := by
+    cases more with
+    | nil => simp at hlen
+    | cons x xs => exact prag_lead first hg x xs hm ws2 c
+  rw [directiveOps_noAssign _ hlead]
+  have hex := spacedOps_exact more first hg hm ws2 c hws2 hc
+  have hmo := spacedOps_more more first hg hm ws2 c hws2 hc
+  have : more.length = 1 ∨ more.length = 2 ∨ more.length = 3 ∨ more.length = 4 ∨ more.length = 5 := by omega
+  rcases this with h | h | h | h | h
+  · rw [h] at hex
+    simp only [directiveOps.tryN, hmo 4 (by omega), hmo 3 (by omega), hmo 2 (by omega), hmo 1 (by omega), hex]
+  · rw [h] at hex
+    simp only [directiveOps.tryN, hmo 4 (by omega), hmo 3 (by omega), hmo 2 (by omega), hex]
+  · rw [h] at hex
+    simp only [directiveOps.tryN, hmo 4 (by omega), hmo 3 (by omega), hex]
+  · rw [h] at hex
+    simp only [directiveOps.tryN, hmo 4 (by omega), hex]
+  · rw [h] at hex
+    simp only [directiveOps.tryN, hex]
+
+/-- **A `#pragma` line** (or any directive with 2..6 operands — names and numbers — separated by
+    blanks only): `#` or `.`, indented or not, behind a label or not, any (non-empty) runs of blanks
+    between the operands, any blanks and any comment at the end — is that directive with exactly
+    those operands -/
+theorem pragma_line (lab : Option Str) (labText ws1 : Str) (p : Char) (name wsA : Str) (first : PItem) (more : List (Str × PItem))
+    (ws2 c : Str) (hp : p = '.' ∨ p = '#')
+    (hlabel : (lab = none ∧ labText = []) ∨ ∃ l, isName l ∧ lab = some (lower l) ∧ labText = l ++ [':'])
+    (hws1 : blanks ws1) (hname : name ≠ []) (hlow : ∀ ch ∈ name, isLowerAlpha ch = true)
+    (hwsA : blanks wsA) (hA : wsA ≠ []) (hg : first.good) (hm : pragOk more)
+    (hlen : 1 ≤ more.length ∧ more.length ≤ 5) (hws2 : blanks ws2) (hc : lineEnd c) :
+    line (labText ++ (ws1 ++ (p :: (name ++ (wsA ++ (first.text ++ (pragTail more ++ (ws2 ++ c)))))))) =
+      .ok (.directiveLine lab (directiveOfName name) (.opList (first.val :: more.map (fun x => x.2.val)))) :=
+  directive_line_of_ops lab labText ws1 p name wsA _ _ ws2 c hp hlabel hws1 hname hlow hwsA hA
+    (directiveOps_pragma first hg more hm hlen ws2 c hws2 hc) (skip_pitem first hg _) hws2 hc
+
+/-! non-vacuity: `#pragma AVRPART MEMORY  PROG_FLASH 2048 ; words` -/
+example : ∃ ops, line "#pragma AVRPART MEMORY  PROG_FLASH 2048 ; words".toList =
+    .ok (.directiveLine none (directiveOfName "pragma".toList) ops) := by
+  have hb : ∀ w : Str, (∀ c ∈ w, c = ' ') → blanks w := by
+    intro w hw c hc; rw [hw c hc]; decide
+  have hnm : ∀ s : String, s.toList ≠ [] → (∀ c ∈ s.toList, isIdentChar c = true) → isIdentStart (s.toList.head!) = true → isName s.toList := by
+    intro s hne hall hhead
+    cases hs : s.toList with
+    | nil => exact absurd hs hne
+    | cons x xs =>
+      rw [hs] at hall hhead
+      exact ⟨x, xs, rfl, hhead, fun c hc => hall c (List.mem_cons_of_mem _ hc)⟩
+  have := pragma_line none [] [] '#' "pragma".toList [' '] (.name "AVRPART".toList)
+    [([' '], .name "MEMORY".toList), ([' ', ' '], .name "PROG_FLASH".toList),
+     ([' '], .num "2048".toList 2048)] [' '] "; words".toList
+    (Or.inr rfl) (Or.inl ⟨rfl, rfl⟩) (hb _ (by simp)) (by decide) (by decide) (hb _ (by simp)) (by decide)
+    (hnm "AVRPART" (by decide) (by decide) (by decide))
+    (by
+      intro x hx
+      simp only [List.mem_cons, List.mem_singleton, List.not_mem_nil, or_false] at hx
+      rcases hx with rfl | rfl | rfl
+      · exact ⟨hb _ (by simp), by decide, hnm "MEMORY" (by decide) (by decide) (by decide)⟩
+      · exact ⟨hb _ (by simp), by decide, hnm "PROG_FLASH" (by decide) (by decide) (by decide)⟩
+      · refine ⟨hb _ (by simp), by decide, ?_⟩
+        have := numText_natToDec 2048 (by decide)
+        have h2 : natToDec 2048 = "2048".toList := by decide
+        rw [h2] at this
+        exact this)
+    (by decide) (hb _ (by simp)) (Or.inr ⟨Or.inl rfl, rfl⟩)
+  exact ⟨_, this⟩
+
 end Avra.Props.C14
